@@ -9,7 +9,7 @@ use flsrc::uci::Flounder;
 use serde_json::{json, Value};
 use std::cell::RefCell;
 
-pub const RULE: &str = "wtime/btime/winc/binc over 0..86_400_000 ms from a boundary-rich mixture (0,1,49,50,4999,5000,5001,5025,60000, hours; increments 0,1,<remaining,=remaining,>remaining), all 24 orders of the four name-value pairs and the two-pair form in both orders, either side to move, in whatever position the engine holds (a generated valid position of 2..32 men, changed every dozen cases by a position command). The budget B is what the REAL go parser hands to the search (hook verif_go_budget; nothing duplicated). Oracle: (1) independence — B unchanged when the opponent's time/inc are replaced and under every permutation of the pairs; (2) fit — B <= own time, B < own time when own time > 0, a missing limit counts as exceeding. Non-trivial = own != opp in time or inc and own time > 0; distinct by (five-tuple, order).";
+pub const RULE: &str = "wtime/btime/winc/binc over 0..86_400_000 ms from a boundary-rich mixture (0,1,49,50,4999,5000,5001,5025,60000, hours; increments 0,1,<remaining,=remaining,>remaining), all 24 orders of the four name-value pairs and the two-pair form in both orders, either side to move, in whatever position the engine holds (a generated valid position of 2..32 men, changed every dozen cases by a position command). The budget B is what the REAL go parser hands to the search (hook verif_go_budget; nothing duplicated). Oracle: (1) independence — B unchanged when the opponent's time/inc are replaced and under every permutation of the pairs; (2) fit — B <= own time, B < own time when own time > 0, a missing limit counts as exceeding. Non-trivial = own != opp in time or inc and own time > 0; distinct by (five-tuple, order). Part 'effective': sequences of 2..7 REAL searches 'go depth 1 <clocks>' on one engine (positions change in between, mates and stalemates included; clocks biased to short ones, 0..16 ms included); after each search the limit the search timer was started with is read back (SearchTimer::time_limit): it must fit in the mover's clock in the same way, and a twin engine given the same sequence with other clocks for the opponent must have run with the same effective budgets. Non-trivial there = a search that follows an earlier one on the same engine with time on the clock.";
 
 
 fn time_value(s: &mut Src) -> u64 {
@@ -204,6 +204,125 @@ fn check(bytes: &[u8], stats: &mut Stats) -> Verdict {
     Ok(())
 }
 
+/// Part 'effective': what the search really runs with.  A sequence of 2..7 real `go depth 1 <clocks>`
+/// commands on ONE engine (positions change in between: small positions, mates and stalemates
+/// included, either side to move); every search is really run (depth 1, so it ends long before its
+/// budget), and after each the limit the search timer was started with is read back
+/// (`SearchTimer::time_limit`).  That effective budget must fit in the mover's clock like the
+/// parser's figure, and a twin engine fed the same sequence with other clocks for the OPPONENT must
+/// have run with the same effective budgets.  (The parser-level part cannot see a budget that is
+/// changed after the parser: a floor in the timer, time carried over from an earlier search.)
+fn check_effective(bytes: &[u8], stats: &mut Stats) -> Verdict {
+    let mut s = Src::new(bytes);
+    let n = 2 + s.below(6);
+    // the script
+    struct Step {
+        position: Option<String>,
+        white: bool,
+        go: String,
+        go_twin: String,
+        own_t: u64,
+    }
+    let mut steps: Vec<Step> = Vec::new();
+    let mut white = true;
+    for i in 0..n {
+        let mut position = None;
+        if i == 0 || s.chance(55) {
+            let p = match s.below(8) {
+                0 => refchess::Pos::from_fen(*s.pick(&["7k/5Q2/6K1/8/8/8/8/8 b - - 0 1", "k7/2Q5/1K6/8/8/8/8/8 b - - 0 1", "R6k/6pp/8/8/8/8/8/K7 b - - 0 1", "8/8/8/8/8/5k2/5p2/5K2 w - - 0 1"])).unwrap().0,
+                1 => refchess::Pos::startpos(),
+                _ => crate::gen::g_small(&mut s).0,
+            };
+            white = p.stm == refchess::Color::W;
+            position = Some(format!("position fen {}", p.fen(0, 1)));
+        }
+        // clocks: boundary-rich, with a bias to SHORT clocks after long ones
+        let own_t = if s.chance(35) { *s.pick(&[0u64, 1, 2, 5, 9, 12, 14, 15, 16, 30, 49, 100, 400, 999]) } else { time_value(&mut s) };
+        let own_i = inc_value(&mut s, own_t);
+        let (opp_t, opp_i) = (time_value(&mut s), inc_value(&mut s, 1000));
+        let (opp_t2, opp_i2) = (time_value(&mut s), inc_value(&mut s, 50_000));
+        let order = PERMS[s.below(24)];
+        let mk = |ot: u64, oi: u64| {
+            let (wt, bt, wi, bi) = if white { (own_t, ot, own_i, oi) } else { (ot, own_t, oi, own_i) };
+            let vals = [("wtime", wt), ("btime", bt), ("winc", wi), ("binc", bi)];
+            format!("go depth 1{}", &cmd_for(&order, &vals)[2..])
+        };
+        steps.push(Step { position, white, go: mk(opp_t, opp_i), go_twin: mk(opp_t2, opp_i2), own_t });
+    }
+    let script: Vec<Value> = steps.iter().flat_map(|st| st.position.iter().map(|p| json!(p)).chain(std::iter::once(json!({"go": st.go, "twin_go": st.go_twin})))).collect();
+    // run on two engines
+    let run = |twin: bool| -> Result<Vec<Option<std::time::Duration>>, Failure> {
+        let mut fl = Flounder::new();
+        let mut out = Vec::new();
+        for st in &steps {
+            let r = std::panic::catch_unwind(std::panic::AssertUnwindSafe(|| {
+                if let Some(p) = &st.position {
+                    fl.verif_handle_command(p);
+                }
+                fl.verif_searcher().verif_set_hard_cap(Some(2_000_000));
+                fl.verif_handle_command(if twin { &st.go_twin } else { &st.go });
+                fl.verif_searcher().verif_timer().time_limit()
+            }));
+            match r {
+                Ok(l) => out.push(l),
+                Err(pn) => {
+                    let msg = crate::panic_text(&pn);
+                    if msg.contains("node hard cap") {
+                        return Err(Failure::new("harness-skip", json!({})));
+                    }
+                    return Err(Failure::new("command-panic", json!({"script": script, "panic": msg})));
+                }
+            }
+        }
+        Ok(out)
+    };
+    let a = match run(false) {
+        Ok(a) => a,
+        Err(f) if f.sig == "harness-skip" => {
+            stats.exclude("depth-1 search over the node watchdog");
+            return Ok(());
+        }
+        Err(f) => return Err(f),
+    };
+    stats.evals(steps.len() as u64);
+    for (i, (st, eff)) in steps.iter().zip(a.iter()).enumerate() {
+        let d = |ms: Option<u64>| json!({"script": script, "step": i, "command": st.go, "side_to_move": if st.white { "white" } else { "black" }, "own_time": st.own_t, "effective_budget_ms": ms});
+        let Some(eff) = eff else {
+            return Err(Failure::new("search-ran-without-a-limit", d(None)));
+        };
+        let ms = eff.as_millis() as u64;
+        let exceeds = eff.as_nanos() > (st.own_t as u128) * 1_000_000 || (st.own_t > 0 && eff.as_nanos() >= (st.own_t as u128) * 1_000_000);
+        if exceeds {
+            return Err(Failure::new("effective-budget-exceeds-clock", d(Some(ms))));
+        }
+        if i > 0 {
+            stats.class("effective_budget_of_a_later_search_on_the_same_engine");
+            if st.own_t > 0 {
+                stats.nontrivial(&(&st.go, i, &steps[i - 1].go));
+            }
+        }
+        if st.own_t <= 16 {
+            stats.class("effective_budget_with_16_ms_or_less_on_the_clock");
+        }
+    }
+    let b = match run(true) {
+        Ok(b) => b,
+        Err(f) if f.sig == "harness-skip" => return Ok(()),
+        Err(f) => return Err(f),
+    };
+    stats.evals(steps.len() as u64);
+    if a != b {
+        let i = a.iter().zip(b.iter()).position(|(x, y)| x != y).unwrap_or(0);
+        return Err(Failure::new(
+            "effective-budget-depends-on-opponent-clock",
+            json!({"script": script, "step": i, "command": steps[i].go, "twin_command": steps[i].go_twin, "effective_budget": format!("{:?}", a[i]), "twin_effective_budget": format!("{:?}", b[i])}),
+        ));
+    }
+    stats.class("effective_budget_sequences");
+    stats.sample(|| json!({"part": "effective", "script": script, "effective_budgets_ms": a.iter().map(|x| x.map(|d| d.as_millis() as u64)).collect::<Vec<_>>()}));
+    Ok(())
+}
+
 pub fn run(tier: Tier, seed: u64, known: &Known) -> PropRun {
     let mut run = PropRun::new("exploration", RULE);
     run.assumptions = vec![
@@ -214,6 +333,12 @@ pub fn run(tier: Tier, seed: u64, known: &Known) -> PropRun {
     let (st, fl) = run_part(&part, seed, known, check);
     run.stats.merge(st);
     run.failure = fl;
+    if run.failure.is_none() {
+        let part = Part { name: "effective", cases: tier.pick(6_000, 200_000), min_len: 40, max_len: 400, max_shrink: 400, threads: threads() };
+        let (st, fl) = run_part(&part, seed, known, check_effective);
+        run.stats.merge(st);
+        run.failure = fl;
+    }
     run
 }
 
@@ -264,9 +389,62 @@ fn replay_case(case: &Value, stats: &mut Stats) -> Option<Verdict> {
     Some(run())
 }
 
-pub fn replay(_part: &str, bytes: &[u8], case: &Value, stats: &mut Stats) -> Verdict {
+/// Structural replay of an 'effective' case: the saved script on a fresh engine (and its twin).
+fn replay_effective(case: &Value, stats: &mut Stats) -> Option<Verdict> {
+    let script = case.get("script")?.as_array()?;
+    let mut engines = [Flounder::new(), Flounder::new()];
+    let mut white = true;
+    let mut step = 0usize;
+    for item in script {
+        if let Some(p) = item.as_str() {
+            white = p.split_whitespace().nth(3) != Some("b");
+            for fl in engines.iter_mut() {
+                fl.verif_handle_command(p);
+            }
+            continue;
+        }
+        let go = item.get("go")?.as_str()?.to_string();
+        let twin = item.get("twin_go").and_then(|x| x.as_str()).unwrap_or(&go).to_string();
+        let own_key = if white { "wtime" } else { "btime" };
+        let toks: Vec<&str> = go.split_whitespace().collect();
+        let own_t: u64 = toks.iter().position(|t| *t == own_key).and_then(|i| toks.get(i + 1)).and_then(|x| x.parse().ok())?;
+        let mut effs = Vec::new();
+        for (k, fl) in engines.iter_mut().enumerate() {
+            let r = std::panic::catch_unwind(std::panic::AssertUnwindSafe(|| {
+                fl.verif_handle_command(if k == 0 { &go } else { &twin });
+                fl.verif_searcher().verif_timer().time_limit()
+            }));
+            match r {
+                Ok(l) => effs.push(l),
+                Err(pn) => return Some(Err(Failure::new("command-panic", json!({"script": script, "panic": crate::panic_text(&pn)})))),
+            }
+        }
+        stats.evals(2);
+        let Some(eff) = effs[0] else {
+            return Some(Err(Failure::new("search-ran-without-a-limit", json!({"script": script, "step": step, "command": go}))));
+        };
+        if eff.as_nanos() > (own_t as u128) * 1_000_000 || (own_t > 0 && eff.as_nanos() >= (own_t as u128) * 1_000_000) {
+            return Some(Err(Failure::new("effective-budget-exceeds-clock", json!({"script": script, "step": step, "command": go, "own_time": own_t, "effective_budget_ms": eff.as_millis() as u64}))));
+        }
+        if effs[0] != effs[1] {
+            return Some(Err(Failure::new("effective-budget-depends-on-opponent-clock", json!({"script": script, "step": step, "command": go, "twin_command": twin}))));
+        }
+        step += 1;
+    }
+    Some(Ok(()))
+}
+
+pub fn replay(part: &str, bytes: &[u8], case: &Value, stats: &mut Stats) -> Verdict {
+    if case.get("script").is_some() {
+        if let Some(v) = replay_effective(case, stats) {
+            return v;
+        }
+    }
     if let Some(v) = replay_case(case, stats) {
         return v;
+    }
+    if part == "effective" {
+        return check_effective(bytes, stats);
     }
     check(bytes, stats)
 }
